@@ -173,7 +173,47 @@ def h_badprice(run, cfg):
     run.check(True, 'badprice-refused')
 
 
-HARNESSES = {'alloc': h_alloc, 'closeout': h_closeout, 'zero': h_zero, 'badprice': h_badprice, 'zero_at_zero_price': h_zero_at_zero_price}
+def h_modes(run, cfg):
+    """whole-unit mode is a property of the strategy that trades: a sub-strategy switched to a mode different from its parent's sizes its own
+    securities - those named by a string and created on first use included - in ITS mode"""
+    B = bt()
+    C = B.core
+    from harness.common import dates, frame
+    dts = dates(2)
+    p = 100.0
+    data = frame(run, dts, ['a', 'b'], lambda i, c: p if c == 'a' else 40.0)
+    kids = ['a', 'b'] if cfg['lazy'] else [C.Security('a'), C.Security('b')]
+    sub = C.Strategy('sub', [], kids)
+    root = C.Strategy('root', [], [sub])
+    root.use_integer_positions(bool(cfg['root_int']))
+    root.setup(data)
+    sub = root['sub']
+    sub.use_integer_positions(bool(cfg['sub_int']))
+    root.update(dts[0])
+    root.adjust(1000000.0)
+    root.allocate(500000.0, 'sub')
+    root.update(dts[0])
+    x = run.real('x', 150, 5000)
+    sub.allocate(x, 'a')
+    root.update(dts[0])
+    q = sub['a'].position
+    if cfg['sub_int']:
+        # whole units, never more than the amount, and one more unit would not fit
+        run.check(sub['a'].integer_positions, 'child-trades-in-its-strategys-mode', 'integer flag %r' % sub['a'].integer_positions)
+        run.check_le(q * p, x, EPS_MONEY, 'budget')
+        run.check_le(x - p, q * p, EPS_MONEY, 'maximal-whole-units', 'position %r for amount %r' % (q, x))
+        if run.mode == 'sym':
+            import z3
+            from symbt.sym import SymBool, lift
+            run.check(SymBool(z3.IsInt(lift(q).z())), 'whole-units')
+        else:
+            run.check(abs(q - round(q)) < 1e-9, 'whole-units', 'position %r' % (q,))
+    else:
+        run.check(not sub['a'].integer_positions, 'child-trades-in-its-strategys-mode', 'integer flag %r' % sub['a'].integer_positions)
+        run.check_near(q * p, x, EPS_MONEY, 'spent-is-full-outlay', 'fractional sub-strategy under a whole-unit root: position %r for %r' % (q, x))
+
+
+HARNESSES = {'modes': h_modes, 'alloc': h_alloc, 'closeout': h_closeout, 'zero': h_zero, 'badprice': h_badprice, 'zero_at_zero_price': h_zero_at_zero_price}
 DECIMAL_REPLAYS = {'quick': 3, 'thorough': 6}      # the sizing search on two-decimal amounts (solver models are dyadic: floats exact there)
 
 
@@ -209,6 +249,9 @@ def plan(tier):
             cfg = dict(p=p, m=m, s=sp, fee=list(fee), int=integer)
             tasks.append(dict(harness='closeout', cfg=cfg))
             tasks.append(dict(harness='zero', cfg=cfg))
+    for root_int, sub_int in ((1, 0), (0, 1), (1, 1), (0, 0)):
+        for lazy in (1, 0):
+            tasks.append(dict(harness='modes', cfg=dict(root_int=root_int, sub_int=sub_int, lazy=lazy)))
     for integer in (0, 1):
         tasks.append(dict(harness='zero_at_zero_price', cfg=dict(p=100.0, m=1.0, s=None, fee=['none', None], int=integer)))
         tasks.append(dict(harness='badprice', cfg=dict(p=100.0, m=1.0, s=None, fee=['none', None], int=integer)))
